@@ -14,6 +14,7 @@
     Lemmas/AstPath/Ancestor.lean    Nodes.ancestor on the cache of full_pathfy (index-group stripping, tag search)
     Lemmas/AstPath/GroupBy.lean     EntryCache.group_by for any depth = the subtree enumeration cut at that depth
     Lemmas/AstPath/PathAlgebra.lean the EntryPath algebra on encoded paths = list operations on elements
+    Lemmas/AstPath/Relativefy.lean  str.split(sep) / DSN.relativefy when sep does not recur; RootNameFree ⇒ RelativefySafe; valid, escaped
     Lemmas/AstPath/Memo.lean        the query memo of Nodes: generated keys determine the query, memo transparency
     Lemmas/AstPath/Expand.lean      Nodes.values; Nodes.expand under PrefixSafe / RelativefySafe
 -/
@@ -32,3 +33,4 @@ import Tranp.Lemmas.AstPath.GroupBy
 import Tranp.Lemmas.AstPath.Expand
 import Tranp.Lemmas.AstPath.Memo
 import Tranp.Lemmas.AstPath.PathAlgebra
+import Tranp.Lemmas.AstPath.Relativefy
